@@ -30,6 +30,15 @@ all_tokens_list = MindsDBLexer.tokens.copy()
 all_tokens_list.remove('RPAREN')
 all_tokens_list.remove('LPAREN')
 
+def param_to_identifier(value, name):
+    # a USING parameter that names an object: name, `name`, 'name' or "name"
+    if isinstance(value, Identifier):
+        return value
+    if isinstance(value, str) and value != '':
+        return Identifier(value)
+    raise ParsingException(f"The parameter '{name}' has to be a name")
+
+
 """
 Unfortunately the rules are not iherited from base SQLParser, because it just doesn't work with Sly due to metaclass magic.
 """
@@ -115,13 +124,13 @@ class MindsDBParser(Parser):
         model = params.pop('model', None)
         storage = params.pop('storage', None)
 
-        if isinstance(model, str):
+        if isinstance(storage, str):
             # convert to identifier
-            storage = Identifier(storage)
+            storage = param_to_identifier(storage, 'storage')
 
         if isinstance(model, str):
             # convert to identifier
-            model = Identifier(model)
+            model = param_to_identifier(model, 'model')
 
         if_not_exists = p.if_not_exists_or_empty
 
@@ -142,6 +151,8 @@ class MindsDBParser(Parser):
     @_('CREATE SKILL if_not_exists_or_empty identifier USING kw_parameter_list')
     def create_skill(self, p):
         params = p.kw_parameter_list
+        if 'type' not in params:
+            raise ParsingException("CREATE SKILL requires the parameter 'type'")
 
         return CreateSkill(
             name=p.identifier,
@@ -182,14 +193,16 @@ class MindsDBParser(Parser):
     @_('CREATE CHATBOT identifier USING kw_parameter_list')
     def create_chat_bot(self, p):
         params = p.kw_parameter_list
+        if 'database' not in params:
+            raise ParsingException("CREATE CHATBOT requires the parameter 'database'")
 
-        database = Identifier(params.pop('database'))
+        database = param_to_identifier(params.pop('database'), 'database')
         model_param = params.pop('model', None)
         agent_param = params.pop('agent', None)
-        model = Identifier(
-            model_param) if model_param is not None else None
-        agent = Identifier(
-            agent_param) if agent_param is not None else None
+        model = param_to_identifier(
+            model_param, 'model') if model_param is not None else None
+        agent = param_to_identifier(
+            agent_param, 'agent') if agent_param is not None else None
         return CreateChatBot(
             name=p.identifier,
             database=database,
